@@ -318,6 +318,13 @@ def run_instrumented(script, mi, ms, lim, via_run_tape, entry=None):
                     functions.run_auth_scripts(
                         [script], stack_max_items=mi, stack_max_item_size=ms,
                         callstack_limit=lim)
+                elif entry in ('auth-2nd', 'auth-3rd'):
+                    # the limits of an authorization hold for EVERY script of
+                    # the list, not only for the first
+                    pre = [isa.op('TRUE') + isa.op('POP0')] * \
+                        (1 if entry == 'auth-2nd' else 2)
+                    functions.run_auth_scripts(pre + [script], {}, {}, {}, mi,
+                                               ms, lim)
                 elif entry == 'auth1':
                     functions.run_auth_script(script, {}, {}, {}, mi, ms, lim)
                 elif entry == 'auth1-kw':
@@ -534,7 +541,8 @@ def run_shard(spec, ctx):
                 'mi': mi, 'ms': ms, 'lim': lim, 'tmpl': tmpl,
                 'rt': rng.random() < 0.15,
                 'entry': rng.choice((None, None, None, 'auth', 'auth-kw',
-                                     'auth1', 'auth1-kw', 'positional'))}
+                                     'auth1', 'auth1-kw', 'positional',
+                                     'auth-2nd', 'auth-2nd', 'auth-3rd'))}
         judge(ctx, case)
         if j % 300 == 0 and len(script) < 80:
             ctx.sample(case)
